@@ -353,6 +353,7 @@ type bpWorld struct {
 	ref   avfs.VFS // standalone reference holding B's content (nil: no reference)
 	roots []string // top-level names of the base to snapshot when "/" cannot be listed (OrefaFS)
 	dead  bool     // the base panicked: the rest of the history is skipped
+	links bool     // symbolic links inside B lead outside (created through the base): no reference, no leak test
 }
 
 func newBase(kind string) avfs.VFS {
@@ -383,8 +384,11 @@ func populate(v avfs.VFS, root string) {
 	must(v.WriteFile(root+"/c/a", []byte("fca"), 0o644))
 }
 
-func newWorld(kind, B string) *bpWorld {
-	w := &bpWorld{kind: kind, B: B}
+// newWorld: kind is memfs | orefafs | memfs-links; given is the base path AS GIVEN to the constructor
+// (possibly an unclean spelling: "/c/", "//c", "/a/../c"), B its cleaned form.
+func newWorld(kind, given string) *bpWorld {
+	B := filepath.Clean(given)
+	w := &bpWorld{kind: kind, B: B, links: kind == "memfs-links"}
 	w.base = newBase(kind)
 	must := func(err error) {
 		if err != nil {
@@ -405,7 +409,24 @@ func newWorld(kind, B string) *bpWorld {
 	}
 	w.roots = []string{"/secret", "/a", "/b", "/home", "/root", "/tmp", B + "c", "/evil", "/nl", "/nr", "/x"}
 	w.rec = &recFS{VFS: w.base, log: &w.log}
-	w.bp = basepathfs.New(w.rec, B)
+	if w.links {
+		// siblings of B whose names EXTEND B's name (string prefix, not path prefix) and, inside B, symbolic
+		// links created through the base (the wrapper refuses Symlink) to them and to other places outside,
+		// with absolute and relative targets. No reference and no leak test in this world: what is checked
+		// is the model's prediction of every translated-back path (identity outside B) and "never a panic".
+		must(w.base.MkdirAll(B+".old/d", 0o755))
+		must(w.base.WriteFile(B+".old/f", []byte("old"), 0o644))
+		must(w.base.MkdirAll(B+"x", 0o755))
+		must(w.base.WriteFile(B+"x/f", []byte("x"), 0o644))
+		rel := "../" + filepath.Base(B)
+		must(w.base.Symlink(B+".old", B+"/lo"))
+		must(w.base.Symlink(rel+"x", B+"/lx"))
+		must(w.base.Symlink("/secret", B+"/ls"))
+		must(w.base.Symlink("/a", B+"/la"))
+		must(w.base.Symlink(B+"/a", B+"/li"))
+		must(w.base.Symlink(rel+".old/f", B+"/a/lf"))
+	}
+	w.bp = basepathfs.New(w.rec, given)
 	w.log = w.log[:0]
 	if kind == "memfs" {
 		ref := memfs.New()
@@ -489,7 +510,7 @@ func (w *bpWorld) outside() string {
 
 // listsRoot: the base can stat and list "/" (MemFS; OrefaFS once its root key is repaired).
 func (w *bpWorld) listsRoot() bool {
-	if w.kind == "memfs" {
+	if w.kind != "orefafs" {
 		return true
 	}
 	if _, err := w.base.Lstat("/"); err != nil {
@@ -1039,7 +1060,7 @@ func (w *bpWorld) step(op string, a []string) opOut {
 	}
 	leak := "leak=0"
 	blob := br.data + "\x00" + strings.Join(br.strs, "\x00")
-	if w.B != "/" && strings.Contains(blob, bpSecret) {
+	if w.B != "/" && !w.links && strings.Contains(blob, bpSecret) {
 		leak = "leak=1"
 		fails = append(fails, "a result reveals the secret outside of B")
 	}
@@ -1206,6 +1227,49 @@ func randHist(r *rng, kind, B string, n int) hist {
 	return h
 }
 
+// bpLinkHists: calls THROUGH symbolic links that lead out of B (created through the base, see newWorld),
+// chosen so that nothing is modified: read-only calls, and creating calls only below a regular file. What they
+// exercise is the reverse translation of paths the base reports after resolving the link - MemFS.MkdirAll names
+// the regular file it met, e.g. /c.old/f for MkdirAll("/lo/f/x"): a string prefix of B that is not below B.
+func bpLinkHists() []hist {
+	var hs []hist
+	dirLinks := []string{"/lo", "/lx", "/la", "/li", "lo", "a/../lx"}
+	fileLinks := []string{"/ls", "/a/lf", "ls"}
+	sufDir := []string{"", "/", "/f", "/d", "/missing", "/missing/x", "/..", "/../c", "/./f/", "/d/.."}
+	sufBelowFile := []string{"/f/x", "/f/x/y", "/f/../f/z"}
+	ro := []string{"Stat", "Lstat", "ReadDir", "ReadFile", "Open", "WalkDir", "Glob", "Abs", "Sub", "Readlink", "EvalSymlinks"}
+	one := func(given, p string, create bool, mode string) hist {
+		ops := bpModePrefix(mode)
+		for _, o := range ro {
+			ops = append(ops, bpOp{o, []string{p}})
+		}
+		if create {
+			for _, o := range []string{"MkdirAll", "Mkdir", "WriteFile", "Create", "OpenFileC", "CreateTemp", "MkdirTemp", "Truncate", "Remove", "RemoveAll"} {
+				ops = append(ops, bpOp{o, []string{p}})
+			}
+			ops = append(ops, bpOp{"Rename", []string{"/b", p}}, bpOp{"Link", []string{"/b", p}}, bpOp{"Rename", []string{p, "/nr"}})
+		}
+		ops = append(ops, bpOp{"Chdir", []string{p}}, bpOp{"Getwd", nil}, bpOp{"Stat", []string{"."}}, bpOp{"Abs", []string{"../x"}}, bpOp{"FChdir", []string{p}}, bpOp{"Getwd", nil})
+		return hist{"memfs-links", given, ops}
+	}
+	for _, given := range []string{"/c", "/c/d"} {
+		for _, mode := range []string{"pre", "post"} {
+			for _, l := range dirLinks {
+				for _, sfx := range sufDir {
+					hs = append(hs, one(given, l+sfx, false, mode))
+				}
+				for _, sfx := range sufBelowFile {
+					hs = append(hs, one(given, l+sfx, true, mode))
+				}
+			}
+			for _, l := range fileLinks {
+				hs = append(hs, one(given, l, false, mode), one(given, l+"/x", true, mode), one(given, l+"/x/y", true, mode))
+			}
+		}
+	}
+	return hs
+}
+
 // fixed witnesses of the defects of the pinned code; always run first
 func bpCorpus() []hist {
 	mk := func(B string, ops ...bpOp) hist { return hist{"memfs", B, ops} }
@@ -1220,6 +1284,9 @@ func bpCorpus() []hist {
 		mk("/", bpOp{"Stat", []string{"/nope"}}, bpOp{"Chdir", []string{"/a"}}, bpOp{"Getwd", nil}, bpOp{"Open", []string{"f"}}),
 		mk("/c", bpOp{"FileR", []string{"/a/f"}}, bpOp{"FileR", []string{"/a"}}, bpOp{"Chdir", []string{"/a"}}, bpOp{"FileW", []string{"f"}}, bpOp{"FileW", []string{"../new"}}),
 		mk("/c/d", bpOp{"FileR", []string{"b"}}, bpOp{"FileW", []string{"/a/b/../n"}}),
+		{"memfs-links", "/c", []bpOp{{"MkdirAll", []string{"/lo/f/x"}}, {"Stat", []string{"/lo/missing"}}, {"ReadDir", []string{"/lx/f"}}, {"MkdirAll", []string{"/a/lf/x"}}}},
+		mk("/c/", bpOp{"Stat", []string{"/"}}, bpOp{"Chdir", []string{"/"}}, bpOp{"Getwd", nil}, bpOp{"RemoveAll", []string{"/"}}, bpOp{"ReadDir", []string{"/"}}),
+		mk("//c", bpOp{"Chdir", []string{"/a"}}, bpOp{"Stat", []string{"f"}}, bpOp{"Open", []string{"../b"}}, bpOp{"Remove", []string{".."}}),
 		mk("/c", bpOp{"XBaseChdir", []string{"/cc"}}, bpOp{"Getwd", nil}, bpOp{"ReadFile", []string{"secret2"}}, bpOp{"Stat", []string{"../secret"}}, bpOp{"WriteFile", []string{"w"}}),
 		mk("/c/d", bpOp{"Mkdir", []string{"/x"}}, bpOp{"Chdir", []string{"x"}}, bpOp{"WriteFile", []string{"../../y"}}, bpOp{"Getwd", nil}),
 	}
@@ -1251,6 +1318,13 @@ func runBpFs(cfg config) {
 				hs = append(hs, hist{"memfs", "/c", ops})
 			}
 		}
+		// the base path given to the constructor in an unclean spelling (the constructor cleans it)
+		for _, s := range bpAllStrings("ab./c", maxLenAll-2) {
+			for _, given := range []string{"/c/", "//c", "/c/.", "/a/../c"} {
+				hs = append(hs, hist{"memfs", given, append(bpModePrefix("post"), opsFor(s)...)})
+			}
+		}
+		hs = append(hs, bpLinkHists()...)
 		// smaller sweeps: root base path, two-component base path, OrefaFS base
 		for _, s := range bpAllStrings("ab./c", maxLenAll-1) {
 			hs = append(hs, hist{"memfs", "/", append(bpModePrefix("post"), opsFor(s)...)})
@@ -1387,6 +1461,23 @@ func runBpStr(cfg config) {
 				}
 			}
 		}
+		// unclean spellings of the base path given to the constructor; and paths the base may report that
+		// have B as a STRING prefix without being below it (siblings whose names extend B's)
+		for _, B := range []string{"/c/", "//c", "/c/.", "/a/../c", "/c/d/"} {
+			for _, s := range bpAllStrings("ab./c", maxLen-2) {
+				for _, cwd := range []string{"", "/c", "/c/a"} {
+					cs = append(cs, cse{B, cwd, s})
+				}
+			}
+		}
+		for _, B := range []string{"/c", "/c/d", "/c/"} {
+			b := filepath.Clean(B)
+			for _, sfx := range []string{"", "/", "x", ".old", ".old/f", "c/../c", "x/f", "/f", "/.", "/..", "//a", "./a", ".", ".."} {
+				for _, cwd := range []string{"", "/c", b + ".old", b + "x/y", b + "/a"} {
+					cs = append(cs, cse{B, cwd, b + sfx})
+				}
+			}
+		}
 		r := &rng{s: cfg.seed}
 		for i := 0; i < 20000; i++ {
 			cs = append(cs, cse{r.pick([]string{"/c", "/c/d", "/"}), r.pick([]string{"", "/c/a", "/c/d/x/y", "/zz"}), randPath(r) + r.pick([]string{"", "/..", "/.", "//a"})})
@@ -1404,15 +1495,21 @@ func runBpStr(cfg config) {
 		tb := g(func() string { return tok(w.bp.ToBasePath(c.p)) })
 		ab := g(func() string { s, _ := w.bp.Abs(c.p); return tok(s) })
 		fb := g(func() string { return tok(w.bp.FromBasePath(c.p)) })
+		fe := g(func() string {
+			// FromPathError / FromLinkError apply the lenient fromBasePath to whatever path the base reports
+			e1 := w.bp.FromPathError(&fs.PathError{Op: "x", Path: c.p, Err: fs.ErrNotExist}).(*fs.PathError)
+			e2 := w.bp.FromLinkError(&os.LinkError{Op: "x", Old: c.p, New: c.B + c.p, Err: fs.ErrNotExist}).(*os.LinkError)
+			return tok(e1.Path) + "," + tok(e2.Old) + "," + tok(e2.New)
+		})
 		wd := g(func() string { s, _ := w.bp.Getwd(); return tok(s) })
 		line := fmt.Sprintf("str %s %s %s", tok(c.B), tok(c.cwd), tok(c.p))
 		key := ""
 		if strings.Contains(c.p, "..") || !strings.HasPrefix(c.p, "/") {
 			key = line
 		}
-		o.emit(line, fmt.Sprintf("tb=%s ab=%s fb=%s wd=%s", tb, ab, fb, wd), key)
+		o.emit(line, fmt.Sprintf("tb=%s ab=%s fb=%s wd=%s fe=%s", tb, ab, fb, wd, fe), key)
 		o.count("B:" + c.B)
-		if tb == "PANIC" || ab == "PANIC" || wd == "PANIC" {
+		if tb == "PANIC" || ab == "PANIC" || wd == "PANIC" || fe == "PANIC" {
 			o.count("outcome:panic")
 		}
 		if fb == "PANIC" {
